@@ -185,6 +185,9 @@ def dict_len(v):
 
 
 def dict_has(v, k):
+    k = lift(k)
+    if isinstance(k.ty, TOpt) and not isinstance(v.ty.key, TOpt):
+        return z3.And(z3.Not(k.ty.is_none(k.t)), v.ty.has(v.t)[k.ty.get(k.t)])
     return v.ty.has(v.t)[coerce(k, v.ty.key).t]
 
 
@@ -273,6 +276,16 @@ def _default_term(ty):
         return FALSE
     if ty is TStr:
         return z3.StringVal('')
+    # a closed VALUE for structured types (cvc5 only accepts values in constant arrays)
+    if isinstance(ty, TTuple):
+        return ty.mk(*[_default_term(e) for e in ty.elems])
+    if isinstance(ty, TList):
+        return ty.mk(z3.K(z3.IntSort(), _default_term(ty.elem)), z3.IntVal(0))
+    if isinstance(ty, TOpt):
+        return ty.none()
+    if isinstance(ty, TDict):
+        return ty.mk(_default_term(ty.keys_ty), z3.K(ty.key.sort(), FALSE), z3.K(ty.key.sort(), _default_term(ty.val)),
+                     z3.K(ty.key.sort(), z3.IntVal(0)))
     return z3.Const('default_' + ty.name, ty.sort())
 
 
